@@ -21,6 +21,13 @@ I5 == [InsnLine("40100a", <<"48", "8b", "05", "f7", "2f", "00", "00">>, "mov", <
           EXCEPT !.comment = "404008 <x>"]
 I6 == InsnLine("401011", B7, "movq", <<Imm("0x0"), Mem("0xa0", "%rsp", "", "")>>)   \* 12 bytes: continuation line follows
 C6 == ContLine("401018", <<"00", "00", "00", "00", "00">>)
+I6b == InsnLine("40101d", B7, "movq", <<Imm("0x1"), Mem("0xa0", "%rsp", "", "")>>)  \* same first 7 bytes as I6, other immediate
+C6b == ContLine("401024", <<"00", "01", "00", "00", "00">>)
+I1b == InsnLine("401000", <<"5d">>, "pop", <<Reg("%rbp")>>)                     \* the address of I1 again (another section of a .o)
+I16 == InsnLine("401030", B7, "movq", <<Imm("0xfffffffffffffffe"), Mem("-0x12345678", "%r10", "%r11", "8")>>)
+I17 == InsnLine("40103c", B7, "imul", <<Imm("0x7fffffff"), Mem("-0x12345678", "%r10", "%r11", "8"), Reg("%r12")>>)
+I18 == [InsnLine("ffffffff81000000", <<"55">>, "push", <<Reg("%rbp")>>) EXCEPT !.indent = 0]   \* kernel-range address: 16 digits, no padding
+I19 == [InsnLine("7f0000001000", <<"c3">>, "ret", <<>>) EXCEPT !.indent = 4]
 I7 == InsnLine("40101d", <<"06">>, "(bad)", <<>>)
 I8 == [InsnLine("40101e", <<"c3">>, "ret", <<>>) EXCEPT !.tail = 4]
 I9 == [InsnLine("8", <<"0f", "1f", "44", "00", "00">>, "nopl", <<Mem("0x0", "%rax", "%rax", "1")>>) EXCEPT !.indent = 3]
@@ -29,7 +36,7 @@ I11 == InsnLine("0", <<"8d", "04", "85", "00", "00", "00", "00">>, "lea", <<Mem(
 I12 == InsnLine("12", <<"ff", "e0">>, "jmp", <<Raw("*%rax")>>)
 I13 == InsnLine("14", <<"90">>, "nop", <<>>)
 I14 == InsnLine("401015", <<"66">>, "data16", <<>>)      \* a lone prefix byte before a symbol / at the end of a section
-Blocks == { <<I1>>, <<I2>>, <<I3>>, <<I4>>, <<I5>>, <<I6, C6>>, <<I7>>, <<I8>>, <<I9>>, <<I10>>, <<I11>>, <<I12>>, <<I13>>, <<I14>>,
+Blocks == { <<I1>>, <<I2>>, <<I3>>, <<I4>>, <<I5>>, <<I6, C6>>, <<I7>>, <<I8>>, <<I9>>, <<I10>>, <<I11>>, <<I12>>, <<I13>>, <<I14>>, <<I6b, C6b>>, <<I1b>>, <<I18>>, <<I19>>, <<I16, C6>>, <<I17, C6>>,
             <<BlankLine>>, <<EllipsisLine>>,
             <<BlankLine, HeaderLine("a.out:     file format elf64-x86-64"), BlankLine, BlankLine>>,
             <<SectionLine(".text"), BlankLine, LabelLine("0000000000401000", "main")>>,
@@ -61,7 +68,10 @@ Mix == { Reg("%rax"), Reg("%r8d"), Mem("", "%rax", "", ""), Mem("0x8", "%rax", "
 OpLists == { <<f>> : f \in Forms } \cup SeqsBetween(Mix, 0, MaxOps)
 OpListings == { <<InsnLine("401000", <<"90">>, "op", o)>> : o \in OpLists }
 
+\* a block of ordinary instruction lines, repeated K times by the harness for listings of 10^4 .. 10^6 lines
+ScaleBlock == <<I1, I2, I4, I5, I3, I13, I11>>
 Universe == [listings |-> SetToSeq(Listings \cup OpListings)]
 Export == [listings |-> [n \in DOMAIN Universe.listings |->
-             [listing |-> Universe.listings[n], lines |-> ListingLines(Universe.listings[n])]]]
+             [listing |-> Universe.listings[n], lines |-> ListingLines(Universe.listings[n])]],
+           scale_block |-> ListingLines(ScaleBlock)]
 =============================================================================
